@@ -3,6 +3,7 @@
    (by [parse_ser]) the emitted bytes re-parse to exactly [flat_map acts_of]. *)
 Require Import Tac ListN Utf8 Width Attrs Cell Row Grid Screen Vte Perform Parser Term Emit.
 Require Import RowInv GridInv TextInv ScreenInv ParseSer CellWf WfGrid WfInv SgrSpec EmitSafe AttrsInv.
+Require Import PendTok.
 Open Scope N_scope.
 
 Definition toks_ok (ts : list token) : Prop := forallb token_ok ts = true.
@@ -754,18 +755,19 @@ Proof. intros H1 H2 H3 _ _ _. now apply rows_diff_tok_strong. Qed.
 
 (* the serialized tokens, fed to a vte parser in any ground state, produce
    exactly [flat_map acts_of ts] and leave the parser in a ground state; and a
-   [Parser] that processes them performs exactly these actions *)
+   [Parser] that holds no bytes back ([pend] empty) and processes them performs exactly these
+   actions and holds nothing back afterwards (serialised tokens end in a complete character) *)
 Definition reparses (ts : list token) : Prop :=
   forall v, ground v -> exists v',
     advance v (ser_all ts) = (v', flat_map acts_of ts) /\ ground v' /\
     forall r l rz,
-      process (mkParser v r l rz) (ser_all ts) =
-      (do '(r', evs) <- perform_all rz r (flat_map acts_of ts) []; Ok (mkParser v' r' (l ++ evs) rz)).
+      process (mkParser v r l rz []) (ser_all ts) =
+      (do '(r', evs) <- perform_all rz r (flat_map acts_of ts) []; Ok (mkParser v' r' (l ++ evs) rz [])).
 
 Theorem toks_ok_reparses ts : toks_ok ts -> reparses ts.
 Proof.
   intros H v Hg. destruct (parse_ser ts v Hg H) as (v' & E & G). exists v'. split; [exact E|]. split; [exact G|].
-  intros r l rz. unfold process. cbn [vt scr log resizing]. rewrite E. reflexivity.
+  intros r l rz. rewrite (process_ser_all (mkParser v r l rz []) ts eq_refl H). cbn [vt scr log resizing]. rewrite E. reflexivity.
 Qed.
 
 Theorem contents_formatted_reparses s ts :
@@ -816,7 +818,7 @@ Proof.
   intros (rows & cols & cap & rz & ops & p & q & Hr & Hc & En & Fo & Er & <-).
   destruct (parser_new_ok rows cols cap rz Hr Hc) as (p' & En' & Hok). rewrite En in En'. injection En' as <-.
   destruct (run_ok ops p Hok Fo) as (q' & Er' & Hokq). rewrite Er in Er'. injection Er' as <-.
-  split; [exact Hokq|]. split.
+  split; [exact (parser_ok_scr _ Hokq)|]. split.
   - exact (history_wf rows cols cap rz ops p q Hr Hc En Fo Er).
   - eapply run_attrs_ok; [|exact Er]. eapply parser_new_attrs_ok; exact En.
 Qed.
